@@ -21,11 +21,12 @@ func init() {
 			{"EVENT-PAYLOAD", ruleEventPayload},
 			{"CONFINEMENT", ruleBusConfinement},
 			{"BUS-BLOCKING", ruleBusBlocking},
+			{"BUS-SUBSCRIBER-LOCAL", ruleBusSubscriberLocal},
 			{"SUB-CID", ruleSubCid},
 			{"PEER-CONSUMES", rulePeerConsumes},
 		},
 		Meta: eng.PropMeta{
-			Explanation: "Decides the structural side of 'exactly one notification per committed document commit, only for committed changes, in order': (EVENT-ONSUCCESS) every publication of an update event in the module sits inside a callback registered with the transaction's OnSuccess/OnSuccessAsync (one tabled exception re-announcing already committed heads); (EVENT-PAYLOAD) in save and applyDelete every document-level and collection-level AddDelta is followed, on every non-error path to the function's exit, by exactly one OnSuccess registration whose event carries the Cid and the block bytes returned by that same AddDelta; (CONFINEMENT) all bus commands pass the single commandChannel whose only receiver is the one handleChannel goroutine, which delivers in loop order; (BUS-BLOCKING) delivery to a subscriber is an unconditional blocking send — never a select with a default/timeout arm that could drop a notification; (SUB-CID) a subscription evaluates at the Cid and DocID of the received update event; (PEER-CONSUMES) the peer subscribes to update events and hands each to handleLog. (COMMIT-CALLBACKS) as in C05: success callbacks, which carry every update event, run only when the store commit returned nil. (EVENT-COLLECTION-ID) as in C19.",
+			Explanation: "Decides the structural side of 'exactly one notification per committed document commit, only for committed changes, in order': (EVENT-ONSUCCESS) every publication of an update event in the module sits inside a callback registered with the transaction's OnSuccess/OnSuccessAsync (one tabled exception re-announcing already committed heads); (EVENT-PAYLOAD) in save and applyDelete every document-level and collection-level AddDelta is followed, on every non-error path to the function's exit, by exactly one OnSuccess registration whose event carries the Cid and the block bytes returned by that same AddDelta; (CONFINEMENT) all bus commands pass the single commandChannel whose only receiver is the one handleChannel goroutine, which delivers in loop order; (BUS-BLOCKING) delivery to a subscriber is an unconditional blocking send — never a select with a default/timeout arm that could drop a notification; (SUB-CID) a subscription evaluates at the Cid and DocID of the received update event; (PEER-CONSUMES) the peer subscribes to update events and hands each to handleLog. (COMMIT-CALLBACKS) as in C05: success callbacks, which carry every update event, run only when the store commit returned nil. (EVENT-COLLECTION-ID) as in C19. (BUS-SUBSCRIBER-LOCAL) subscribing and unsubscribing touch only the subscriber concerned: handleChannel deletes subscriber ids from an event's set, never the set itself, and creates a set only when the event name has none.",
 			NotDecided:  "delivery under back-pressure and shutdown, exactly-one results of GraphQL subscriptions against their filter, ordering across concurrent callers (defined by commit completion order at run time)",
 		},
 	})
@@ -394,4 +395,133 @@ func rulePeerConsumes(c *eng.Ctx) {
 	}
 	c.Check(subscribed.IsValid(), rule, "net:subscribes(UpdateName)", subscribed, "the peer subscribes to update events", "package net no longer subscribes to event.UpdateName: committed changes are never pushed to peers")
 	c.Check(handled.IsValid(), rule, "net:handleLog-called", handled, "update events are handed to handleLog", "handleLog is never called: update events are received but not processed")
+}
+
+// ruleBusSubscriberLocal: the bus keeps, per event name, the set of subscriber ids (b.events[name]).
+// Subscribing and unsubscribing are local to the one subscriber concerned:
+//   - handleChannel never deletes an entry of b.events itself (that would drop EVERY subscriber of that
+//     event name when one of them leaves); it only deletes a subscriber id from an event's set;
+//   - a set b.events[name] is (re)created only on the absent edge of a comma-ok lookup of that entry
+//     (otherwise a new subscriber would wipe the earlier ones).
+//
+// Without this, a subscriber that is still registered silently stops receiving committed updates.
+func ruleBusSubscriberLocal(c *eng.Ctx) {
+	const rule = "BUS-SUBSCRIBER-LOCAL"
+	fi := c.Anchor(rule, "event.(*channelBus).handleChannel")
+	if fi == nil {
+		return
+	}
+	info := fi.Pkg.TypesInfo
+	isEvents := func(e ast.Expr) bool { return isFieldNamed(info, e, "events") }
+	flow := eng.NewFlow(info, fi.Decl.Body)
+	nDel, nSet := 0, 0
+	ast.Inspect(fi.Decl.Body, func(m ast.Node) bool {
+		switch x := m.(type) {
+		case *ast.CallExpr:
+			if id, ok := x.Fun.(*ast.Ident); ok && id.Name == "delete" && len(x.Args) == 2 {
+				target := ast.Unparen(x.Args[0])
+				if isEvents(target) {
+					nDel++
+					// dropping the set is harmless only when it is empty: with "the set still has a
+					// member" assumed (len(b.events[…]) == 1) the delete must be unreachable
+					dpt, _ := flow.PointOf(x)
+					reach := flow.Forward(flow.Entry(), true, eng.Walk{
+						Visit: func(p eng.Point, _ ast.Node) eng.Action {
+							if p == dpt {
+								return eng.Hit
+							}
+							return eng.Continue
+						},
+						Edge: func(cond ast.Expr, taken bool) bool {
+							switch eng.EvalBool(info, cond, func(e ast.Expr) eng.Tri {
+								if be, ok := ast.Unparen(e).(*ast.BinaryExpr); ok {
+									if lc, ok := ast.Unparen(be.X).(*ast.CallExpr); ok && len(lc.Args) == 1 {
+										if id, ok := lc.Fun.(*ast.Ident); ok && id.Name == "len" {
+											if lx, ok := ast.Unparen(lc.Args[0]).(*ast.IndexExpr); ok && isEvents(lx.X) {
+												if k, ok := eng.IntConst(info, be.Y); ok {
+													if r, ok := eng.CmpHolds(be.Op, cmpInt(1, k)); ok {
+														return eng.TriOf(r)
+													}
+												}
+											}
+										}
+									}
+								}
+								return eng.Unknown
+							}) {
+							case eng.True:
+								return taken
+							case eng.False:
+								return !taken
+							}
+							return true
+						},
+					})
+					c.Check(!reach, rule, fmt.Sprintf("handleChannel:delete#%d:one-subscriber-only", nDel), x.Pos(), "an event's set is dropped only when it is empty",
+						"an entry of b.events — the whole subscriber set of an event name — is deleted while it can still have members: when one subscriber leaves, every other subscriber of that event silently stops receiving notifications")
+				} else if ix, ok := target.(*ast.IndexExpr); ok && isEvents(ix.X) {
+					nDel++
+					c.OK(rule, fmt.Sprintf("handleChannel:delete#%d:one-subscriber-only", nDel), x.Pos(), "removes one subscriber id from the event's set")
+				}
+			}
+		case *ast.AssignStmt:
+			for _, l := range x.Lhs {
+				ix, ok := ast.Unparen(l).(*ast.IndexExpr)
+				if !ok || !isEvents(ix.X) {
+					continue
+				}
+				nSet++
+				construct := fmt.Sprintf("handleChannel:events[name]=…#%d:only-when-absent", nSet)
+				// the comma-ok lookup of the same entry
+				var probe *ast.AssignStmt
+				ast.Inspect(fi.Decl.Body, func(y ast.Node) bool {
+					as, ok := y.(*ast.AssignStmt)
+					if !ok || len(as.Lhs) != 2 || len(as.Rhs) != 1 {
+						return true
+					}
+					if px, ok := ast.Unparen(as.Rhs[0]).(*ast.IndexExpr); ok && isEvents(px.X) && eng.ExprStr(px.Index) == eng.ExprStr(ix.Index) {
+						probe = as
+					}
+					return true
+				})
+				if probe == nil {
+					c.Bad(rule, construct, x.Pos(), "the subscriber set of an event name is replaced without looking whether one exists: earlier subscribers of that event are dropped")
+					continue
+				}
+				okVar := eng.ObjOf(info, probe.Lhs[1])
+				spt, _ := flow.PointOf(x)
+				ppt, _ := flow.PointOf(probe)
+				unprobed := flow.ReachesWithout(spt, func(nd ast.Node) bool { return nd == ast.Node(probe) }, nil)
+				reached := flow.Forward(ppt, false, eng.Walk{
+					Visit: func(p eng.Point, nd ast.Node) eng.Action {
+						if p == spt {
+							return eng.Hit
+						}
+						if nd == ast.Node(probe) {
+							return eng.Cut
+						}
+						return eng.Continue
+					},
+					Edge: func(cond ast.Expr, taken bool) bool {
+						switch eng.EvalBool(info, cond, func(e ast.Expr) eng.Tri {
+							if eng.ObjOf(info, e) == okVar && okVar != nil {
+								return eng.True
+							}
+							return eng.Unknown
+						}) {
+						case eng.True:
+							return taken
+						case eng.False:
+							return !taken
+						}
+						return true
+					},
+				})
+				c.Check(!unprobed && !reached, rule, construct, x.Pos(), "a set is created only when the event name has none",
+					"the subscriber set of an event name is replaced although one exists: earlier subscribers of that event are dropped")
+			}
+		}
+		return true
+	})
+	c.Floor(rule, nDel+nSet, 2)
 }
